@@ -148,6 +148,8 @@ class WSPeer(BasePeer):
             oc = cfg.get("on_close") or {"mode": "reply"}
             mode = oc.get("mode", "reply")
             if not first or self.sent_close:
+                if self.sent_close and cfg.get("eof_after_close_reply", True):
+                    conn.link.finish("eof")  # closing handshake complete: a server now closes the TCP connection
                 return
             delay = int(oc.get("delay", 0))
             if mode == "reply":
